@@ -354,3 +354,422 @@ def translate_registry(ctx) -> None:
            "  fns : List (String × List (String × List String))", "  deriving Repr, DecidableEq", "",
            "def registry : List Entry := [", ",\n".join(rows), "]", "", "end Iodata.Gen.ApiRegistry", ""]
     ctx.gen_write("ApiRegistry", "\n".join(txt))
+
+
+# =====================================================================================================
+# T2 "controlled behaviours": run the REAL api functions against a scripted format module, a scripted
+# data object, a traced `open` and a traced LineIterator, and print the same line as the Lean driver.
+# =====================================================================================================
+import builtins
+import os
+import types
+
+EXC_NAMES = ["FileFormatError", "LoadError", "DumpError", "PrepareDumpError", "WriteInputError",
+             "StopIteration", "RuntimeError", "Other", "OSError", "Base", "GeneratorExit"]
+
+
+class Boom(Exception):
+    """Stands for any Exception subclass that is not one of the named ones (ValueError, TypeError, ...)."""
+
+
+class Interrupt(BaseException):
+    """Stands for KeyboardInterrupt / SystemExit."""
+
+
+def exc_class(name):
+    import iodata.utils as u
+
+    return {"FileFormatError": u.FileFormatError, "LoadError": u.LoadError, "DumpError": u.DumpError,
+            "PrepareDumpError": u.PrepareDumpError, "WriteInputError": u.WriteInputError,
+            "StopIteration": StopIteration, "RuntimeError": RuntimeError, "Other": Boom, "OSError": OSError,
+            "Base": Interrupt, "GeneratorExit": GeneratorExit}[name]
+
+
+def make_exc(name, where="scripted"):
+    cls = exc_class(name)
+    if name in ("FileFormatError", "LoadError", "DumpError", "PrepareDumpError", "WriteInputError"):
+        return cls("scripted " + where, "scripted-file")
+    return cls("scripted " + where)
+
+
+def classify(exc) -> str:
+    import iodata.utils as u
+
+    t = type(exc)
+    for name in ("FileFormatError", "LoadError", "DumpError", "PrepareDumpError", "WriteInputError"):
+        if t is getattr(u, name):
+            return name
+    if t is Boom:
+        return "Other"
+    if t is Interrupt:
+        return "Base"
+    if t in (StopIteration, RuntimeError, OSError, GeneratorExit):
+        return t.__name__
+    if isinstance(exc, OSError):
+        return "OSError"
+    return "Other:" + t.__name__
+
+
+FUNNEL_LOAD_MSGS = ("Uncaught exception while loading file.", "File ended before all data was read.")
+
+
+def show_exc(exc) -> str:
+    name = classify(exc)
+    if name == "LoadError" and exc.args and exc.args[0] in FUNNEL_LOAD_MSGS and exc.lineno is not None:
+        return f"raise:{name}:{exc.lineno}"
+    return "raise:" + name
+
+
+class Tracer:
+    def __init__(self):
+        self.ev: list[str] = []
+        self.nw = 0  # completed write calls
+        self.inject: dict[int, str] = {}  # write-call index -> exception name raised instead of writing
+        self.open_fail = None
+        self.files = []
+
+
+class TracedFile:
+    """Wrapper around a real file object: logs write/close, can raise at the k-th write call."""
+
+    def __init__(self, fh, tr: Tracer, reading=False):
+        self._fh, self._tr, self._reading = fh, tr, reading
+        self.name = fh.name
+
+    def write(self, s):
+        k = self._tr.nw
+        if k in self._tr.inject:
+            raise make_exc(self._tr.inject[k], "write fault")
+        self._tr.nw += 1
+        self._tr.ev.append("w")
+        return self._fh.write(s)
+
+    def __enter__(self):
+        return self
+
+    def __exit__(self, *a):
+        self.close()
+
+    def close(self):
+        if not self._fh.closed:
+            self._tr.ev.append("c")
+        self._fh.close()
+
+    def __iter__(self):
+        return self
+
+    def __next__(self):
+        return next(self._fh)
+
+    def __getattr__(self, name):
+        return getattr(self._fh, name)
+
+
+class patched_io:
+    """Context manager: route `open` of iodata.api / iodata.utils and the LineIterator methods through a Tracer."""
+
+    def __init__(self, tr: Tracer):
+        self.tr = tr
+
+    def __enter__(self):
+        import iodata.api as api
+        import iodata.utils as utils
+
+        tr = self.tr
+
+        def open_w(filename, mode="r", *a, **k):
+            if tr.open_fail is not None:
+                raise make_exc(tr.open_fail, "open")
+            fh = builtins.open(filename, mode, *a, **k)
+            tr.ev.append("O" if "w" in mode else "R")
+            f = TracedFile(fh, tr)
+            tr.files.append(f)
+            return f
+
+        self.saved = (api.__dict__.get("open"), utils.__dict__.get("open"),
+                      utils.LineIterator.__next__, utils.LineIterator.back)
+        api.open = open_w
+        utils.open = open_w
+        orig_next, orig_back = utils.LineIterator.__next__, utils.LineIterator.back
+
+        def traced_next(self_):
+            tr.ev.append("n")
+            return orig_next(self_)
+
+        def traced_back(self_, line):
+            tr.ev.append("b")
+            return orig_back(self_, line)
+
+        utils.LineIterator.__next__ = traced_next
+        utils.LineIterator.back = traced_back
+        return self
+
+    def __exit__(self, *a):
+        import iodata.api as api
+        import iodata.utils as utils
+
+        for mod, old in ((api, self.saved[0]), (utils, self.saved[1])):
+            if old is None:
+                mod.__dict__.pop("open", None)
+            else:
+                mod.open = old
+        utils.LineIterator.__next__ = self.saved[2]
+        utils.LineIterator.back = self.saved[3]
+
+
+def fd_count() -> int:
+    return len(os.listdir("/proc/self/fd"))
+
+
+class FakeData:
+    """Object handed to dump_*: every required name has a scripted `getattr` behaviour."""
+
+    def __init__(self, tr, names, attrs, prep, w):
+        self.__dict__["_s"] = (tr, dict(zip(names, attrs)), prep, w)
+
+    def __getattr__(self, name):
+        tr, beh, _, _ = self.__dict__["_s"]
+        if name.startswith("__"):
+            raise AttributeError(name)
+        if name not in beh:
+            raise AttributeError(name)  # a name of the wrong function's list: not scripted
+        tr.ev.append("g")
+        kind = beh[name]
+        if kind == "v":
+            return 1
+        if kind == "n":
+            return None
+        raise make_exc(kind[2:], "getattr")
+
+
+def _do_writes(f, tr, w, rng_inject):
+    """n successful write calls, then the scripted failure (raised by the writer itself, or injected
+    at the next write call of the file object)."""
+    n, fail = w
+    for _ in range(n):
+        f.write(f"{tr.nw};")
+    if fail is not None:
+        if rng_inject:
+            tr.inject[tr.nw] = fail
+            f.write("never;")
+            raise AssertionError("injection did not fire")
+        raise make_exc(fail, "writer")
+
+
+def parse_frame(s):
+    a, p, w = s.split("/")
+    n, fail = w.split(":")
+    return ([] if a == "@" else a.split(","), None if p == "-" else p, (int(n), None if fail == "-" else fail))
+
+
+def parse_item(s):
+    o, r, c = s.split("/")
+    return ("" if o == "@" else o, None if r == "-" else r, None if c == "-" else c)
+
+
+def make_fake_module(tr, kv, inject_mode, names_one, names_many):
+    """A format module scripted by the behaviour vector ``kv`` (same keys as the driver request)."""
+    mod = types.ModuleType("iodata.formats.zzfake")
+    mod.PATTERNS = ["*.zzfake"]
+    pre = parse_frame("@/-/" + kv.get("pre", "0:-"))[2]
+    post = parse_frame("@/-/" + kv.get("post", "0:-"))[2]
+
+    def dump_one(f, data, **kwargs):
+        _do_writes(f, tr, data.__dict__["_s"][3], inject_mode)
+
+    def dump_many(f, datas, **kwargs):
+        _do_writes(f, tr, pre, inject_mode)
+        for data in datas:
+            _do_writes(f, tr, data.__dict__["_s"][3], inject_mode)
+        _do_writes(f, tr, post, inject_mode)
+
+    def write_input(fh, data, template, atom_line, **kwargs):
+        _do_writes(fh, tr, data.__dict__["_s"][3], inject_mode)
+
+    def prepare_dump(data, allow_changes, filename):
+        tr.ev.append("p")
+        prep = data.__dict__["_s"][2]
+        if prep is not None:
+            raise make_exc(prep, "prepare_dump")
+        return data
+
+    items = [parse_item(s) for s in kv.get("items", "@").split(";")] if kv.get("items", "@") != "@" else []
+    iend = None if kv.get("iend", "-") == "-" else kv["iend"]
+
+    def run_item(lit, item):
+        ops, res, _ = item
+        kept = []
+        for op in ops:
+            if op == "n":
+                kept.append(next(lit))
+            else:
+                lit.back(kept.pop() if kept else "pushed\n")
+        if res is not None:
+            raise make_exc(res, "parser")
+        return {"_ctor": item[2]}
+
+    def load_one(lit, **kwargs):
+        return run_item(lit, items[0] if items else ("", None, None))
+
+    if kv.get("gen", "1") == "1":
+        def load_many(lit, **kwargs):
+            for item in items:
+                yield run_item(lit, item)
+            if iend is not None:
+                raise make_exc(iend, "parser end")
+    else:
+        class _It:
+            def __init__(self, lit):
+                self.lit, self.k = lit, 0
+
+            def __iter__(self):
+                return self
+
+            def __next__(self):
+                if self.k < len(items):
+                    self.k += 1
+                    return run_item(self.lit, items[self.k - 1])
+                if iend is not None:
+                    raise make_exc(iend, "parser end")
+                raise StopIteration
+
+        def load_many(lit, **kwargs):
+            return _It(lit)
+
+    dump_one.required, dump_one.fmt = list(names_one), "ZZFAKE"
+    dump_many.required, dump_many.fmt = list(names_many), "ZZFAKE"
+    mod.dump_one, mod.dump_many, mod.load_one, mod.load_many = dump_one, dump_many, load_one, load_many
+    mod.write_input = write_input
+    if kv.get("hp", "1") == "1":
+        mod.prepare_dump = prepare_dump
+    return mod
+
+
+class FakeIOData:
+    """Stands for `IOData(**dict)` in load_one / load_many: the scripted constructor outcome."""
+
+    def __init__(self, tr):
+        self.tr = tr
+
+    def __call__(self, **kw):
+        self.tr.ev.append("k")
+        if kw.get("_ctor") is not None:
+            raise make_exc(kw["_ctor"], "IOData()")
+        return ("IOData", kw)
+
+
+def _fs_write(path, spec):
+    if os.path.exists(path):
+        os.unlink(path)
+    if spec != "absent":
+        with builtins.open(path, "w") as fh:
+            fh.write("" if spec == "e" else "".join(t + ";" for t in spec.split(".")))
+
+
+def _fs_show(path):
+    if not os.path.exists(path):
+        return "absent"
+    txt = builtins.open(path).read()
+    if txt == "":
+        return "e"
+    if not txt.endswith(";") or not all(t.isdigit() for t in txt[:-1].split(";")):
+        return "garbage:" + txt[:40].encode().hex()
+    return ".".join(txt[:-1].split(";"))
+
+
+def run_controlled(entry: str, kv: dict, workdir: str, inject_mode: bool):
+    """Run the real API function `entry` under the scripted behaviours; return (response line, fd delta, open files)."""
+    import iodata.api as api
+
+    tr = Tracer()
+    tr.open_fail = None if kv.get("open", "-") == "-" else kv["open"]
+    frames_s = [] if kv.get("frames", "@") == "@" else kv["frames"].split(";")
+    frames = [parse_frame(s) for s in frames_s]
+    nmax = max([len(f[0]) for f in frames] + [0])
+    names_one = [f"a{i}" for i in range(nmax)]
+    names_many = [f"m{i}" for i in range(nmax)]
+    names = names_many if entry == "dump_many" else names_one
+    datas = [FakeData(tr, names[: len(a)], a, p, w) for a, p, w in frames]
+    mod = make_fake_module(tr, kv, inject_mode, names_one, names_many)
+    # the required list is per frame in the model; the scripted module declares the longest one and
+    # every frame scripts all of them (shorter frames are padded by the generator, see c08.py)
+    path = os.path.join(workdir, "target.zzfake")
+    sel_fail = kv.get("sel", "-") != "-"
+    fmt = "zz-no-such-format" if sel_fail else "zzfake"
+    if entry in ("load_one", "load_many"):
+        with builtins.open(path, "w") as fh:
+            fh.write("".join(f"line {i}\n" for i in range(int(kv.get("nlines", "0")))))
+    else:
+        _fs_write(path, kv.get("fs", "absent"))
+    api.FORMAT_MODULES["zzfake"] = mod
+    api.INPUT_MODULES["zzfake"] = mod
+    saved_iodata = api.IOData
+    api.IOData = FakeIOData(tr)
+    fd0 = fd_count()
+    out = None
+    try:
+        with patched_io(tr):
+            try:
+                if entry == "dump_one":
+                    api.dump_one(datas[0] if datas else FakeData(tr, [], [], None, (0, None)), path, fmt=fmt)
+                    out = "ret"
+                elif entry == "write_input":
+                    api.write_input(datas[0] if datas else FakeData(tr, [], [], None, (0, None)), path, fmt)
+                    out = "ok"
+                elif entry == "dump_many":
+                    end = None if kv.get("end", "-") == "-" else kv["end"]
+
+                    class UserIter:
+                        def __init__(self):
+                            self.k = 0
+
+                        def __iter__(self):
+                            return self
+
+                        def __next__(self):
+                            if self.k < len(datas):
+                                self.k += 1
+                                return datas[self.k - 1]
+                            if end is not None:
+                                raise make_exc(end, "user iterator")
+                            raise StopIteration
+
+                    api.dump_many(UserIter(), path, fmt=fmt)
+                    out = "ok"
+                elif entry == "load_one":
+                    api.load_one(path, fmt=fmt)
+                    out = "ret"
+                elif entry == "load_many":
+                    quota = None if kv.get("quota", "-") == "-" else int(kv["quota"])
+                    gen = api.load_many(path, fmt=fmt)
+                    got = 0
+                    if quota is None:
+                        for _ in gen:
+                            tr.ev.append("y")
+                    else:
+                        while got < quota:
+                            try:
+                                next(gen)
+                            except StopIteration:
+                                break
+                            tr.ev.append("y")
+                            got += 1
+                        gen.close()
+                    del gen
+                    out = "ok"
+            except BaseException as exc:  # noqa: BLE001 - the class is the observation
+                out = show_exc(exc)
+    finally:
+        api.FORMAT_MODULES.pop("zzfake", None)
+        api.INPUT_MODULES.pop("zzfake", None)
+        api.IOData = saved_iodata
+    still_open = sum(1 for f in tr.files if not f._fh.closed)
+    fd1 = fd_count()
+    fs = "absent" if entry in ("load_one", "load_many") else _fs_show(path)
+    if os.path.exists(path):
+        os.unlink(path)
+    return f"{out} fs={fs} tr={''.join(tr.ev)}", fd1 - fd0, still_open
+
+
+def request_line(entry: str, kv: dict) -> str:
+    return "flow " + entry + "".join(f" {k}={v}" for k, v in kv.items())
